@@ -643,6 +643,59 @@ struct RenderNode {
     style: ComputedStyle,
 }
 
+impl RenderNodeInfo {
+    /// Move the child nodes out of this node, leaving it childless.
+    fn take_children(&mut self) -> Vec<RenderNode> {
+        use RenderNodeInfo::*;
+        fn from_rows(rows: &mut [RenderTableRow]) -> Vec<RenderNode> {
+            rows.iter_mut()
+                .flat_map(|row| row.cells.iter_mut())
+                .flat_map(|cell| std::mem::take(&mut cell.content))
+                .collect()
+        }
+        match self {
+            Text(_) | Img(_, _) | Break | FragStart(_) => Vec::new(),
+            Container(v)
+            | Link(_, v)
+            | Em(v)
+            | Strong(v)
+            | Strikeout(v)
+            | Code(v)
+            | Block(v)
+            | Header(_, v)
+            | Div(v)
+            | BlockQuote(v)
+            | Ul(v)
+            | Ol(_, v)
+            | Dl(v)
+            | Dt(v)
+            | Dd(v)
+            | ListItem(v)
+            | Sup(v) => std::mem::take(v),
+            Table(table) => from_rows(&mut table.rows),
+            TableBody(rows) => from_rows(rows),
+            TableRow(row, _) => from_rows(std::slice::from_mut(row)),
+            TableCell(cell) => std::mem::take(&mut cell.content),
+        }
+    }
+
+    /// Move the node information out, leaving a placeholder behind.
+    fn take(&mut self) -> RenderNodeInfo {
+        std::mem::replace(self, RenderNodeInfo::Break)
+    }
+}
+
+impl Drop for RenderNode {
+    /// Dismantle deep trees iteratively (like the DOM does), so that dropping
+    /// the render tree of a deeply nested document can't exhaust the stack.
+    fn drop(&mut self) {
+        let mut pending = self.info.take_children();
+        while let Some(mut node) = pending.pop() {
+            pending.append(&mut node.info.take_children());
+        }
+    }
+}
+
 impl RenderNode {
     /// Create a node from the RenderNodeInfo.
     fn new(info: RenderNodeInfo) -> RenderNode {
@@ -1044,9 +1097,9 @@ fn table_to_render_tree<'a, T: Write>(
         // Anything else with content (in practice a <caption>) is kept as a
         // block above the table.
         let mut captions = vec![];
-        for bodynode in rowset {
-            if let RenderNodeInfo::TableBody(body) = bodynode.info {
-                rows.extend(body);
+        for mut bodynode in rowset {
+            if let RenderNodeInfo::TableBody(ref mut body) = bodynode.info {
+                rows.append(body);
             } else if !bodynode.is_shallow_empty() {
                 captions.push(bodynode);
             }
@@ -1078,8 +1131,8 @@ fn tbody_to_render_tree<'a, T: Write>(
     pending_noempty(input, move |_, rowchildren| {
         let mut rows = rowchildren
             .into_iter()
-            .flat_map(|rownode| {
-                if let RenderNodeInfo::TableRow(row, _) = rownode.info {
+            .flat_map(|mut rownode| {
+                if let RenderNodeInfo::TableRow(row, _) = rownode.info.take() {
                     Some(row)
                 } else {
                     html_trace!("  [[tbody child: {:?}]]", rownode);
@@ -1131,8 +1184,8 @@ fn tr_to_render_tree<'a, T: Write>(
     pending(input, move |_, cellnodes| {
         let cells = cellnodes
             .into_iter()
-            .flat_map(|cellnode| {
-                if let RenderNodeInfo::TableCell(cell) = cellnode.info {
+            .flat_map(|mut cellnode| {
+                if let RenderNodeInfo::TableCell(cell) = cellnode.info.take() {
                     Some(cell)
                 } else {
                     html_trace!("  [[tr child: {:?}]]", cellnode);
@@ -1946,7 +1999,7 @@ impl PushedStyleInfo {
 
 fn do_render_node<T: Write, D: TextDecorator>(
     renderer: &mut TextRenderer<D>,
-    tree: RenderNode,
+    mut tree: RenderNode,
     err_out: &mut T,
 ) -> render::Result<TreeMapResult<'static, TextRenderer<D>, RenderNode, Option<SubRenderer<D>>>> {
     html_trace!("do_render_node({:?}", tree);
@@ -1957,7 +2010,7 @@ fn do_render_node<T: Write, D: TextDecorator>(
 
     let pushed_style = PushedStyleInfo::apply(renderer, &tree.style);
 
-    Ok(match tree.info {
+    Ok(match tree.info.take() {
         Text(ref tstr) => {
             renderer.add_inline_text(tstr)?;
             pushed_style.unwind(renderer);
